@@ -252,6 +252,105 @@ def exhaustive_small():
     return out
 
 
+# ------------------------------------------------------------------------------------------
+# controlled OS threads (hook points): scenarios are op lists
+#   ["ws", k, plan]  plan none|notified|status     ["x"]    ["rw", k]    ["rx"]
+
+def thr_translate(scn):
+    sup, plan = scn["sup"], scn["exit"]
+    n_publish = 12 + (2 if sup else 0)
+    labels = ["LOpen 1%N"]
+    started, paused = [], set()
+
+    def la(n):
+        labels.extend(["LA 0"] * n)
+
+    def settle():
+        for k in started:
+            if k not in paused:
+                labels.extend([f"LW {k}"] * 5)
+
+    hops = []
+    for op in scn["ops"]:
+        if op[0] == "ws":
+            _, k, pl = op
+            hops.append(f"ws {k} {pl}")
+            started.append(k)
+            if pl == "none":
+                labels.extend([f"LW {k}"] * 5)
+            else:
+                labels.extend([f"LW {k}"] * (1 if pl == "notified" else 2))
+                paused.add(k)
+        elif op[0] == "x":
+            hops.append("x")
+            labels.append("LOpen 0%N")
+            la({"none": 40, "publish": n_publish, "between": n_publish + 1}[plan])
+            settle()
+        elif op[0] == "rw":
+            hops.append(f"rw {op[1]}")
+            if op[1] in paused:
+                paused.discard(op[1])
+                labels.extend([f"LW {op[1]}"] * 5)
+        elif op[0] == "rx":
+            hops.append("rx")
+            la(40)
+            settle()
+    for k in started:
+        if k in paused:
+            labels.extend([f"LW {k}"] * 5)
+    paused.clear()
+    n = (max(started) + 1) if started else 0
+    line = f"thr sup={1 if sup else 0} exit={plan} ; " + " ; ".join(hops)
+    init = f"(scenario_init Running [{'; '.join(['W0'] * n)}] CStop {'true' if sup else 'false'})"
+    return {"line": line, "labels": "[" + "; ".join(labels) + "]", "init": init, "sup": sup}
+
+
+def gen_thr(rng):
+    sup = rng.random() < 0.6
+    plan = rng.choice(["none", "publish", "between"])
+    ops, k = [], 0
+    paused = []
+    for _ in range(rng.choice([0, 1, 2, 2, 3])):
+        pl = rng.choice(["none", "notified", "status", "status"])
+        ops.append(["ws", k, pl])
+        if pl != "none":
+            paused.append(k)
+        k += 1
+    ops.append(["x"])
+    if plan != "none":
+        for _ in range(rng.choice([0, 1, 2])):
+            if paused and rng.random() < 0.5:
+                ops.append(["rw", paused.pop(rng.randrange(len(paused)))])
+            else:
+                ops.append(["ws", k, "none"])
+                k += 1
+        ops.append(["rx"])
+    for _ in range(rng.choice([0, 1, 2])):
+        if paused and rng.random() < 0.6:
+            ops.append(["rw", paused.pop(rng.randrange(len(paused)))])
+        else:
+            ops.append(["ws", k, "none"])
+            k += 1
+    return {"sup": sup, "exit": plan, "ops": ops}
+
+
+def exhaustive_thr():
+    """two early waiters with every pair of plans x exit plan x (resume during the exit pause | after)"""
+    out = []
+    for sup in (False, True):
+        for plan in ("none", "publish", "between"):
+            for p0, p1 in itertools.product(("none", "notified", "status"), repeat=2):
+                for mid in ((False, True) if plan != "none" else (False,)):
+                    ops = [["ws", 0, p0], ["ws", 1, p1], ["x"]]
+                    if plan != "none":
+                        if mid:
+                            ops += [["rw", 0], ["ws", 2, "none"]]
+                        ops.append(["rx"])
+                    ops += [["rw", 1], ["rw", 0], ["ws", 3 if (plan != "none" and mid) else 2, "none"]]
+                    out.append({"sup": sup, "exit": plan, "ops": ops})
+    return out
+
+
 def obs_view(term, idmap=None):
     """list of mkObs terms -> {waiter: (outcome, snapshot tuple)}"""
     d = {}
@@ -277,18 +376,28 @@ def run(chk):
         return chk.finish(trusted_base=TRUSTED)
 
     scns = []
+    corpus_thr = []
+    replay_thr = None
     if getattr(chk, "replay", None):
         # replay a recorded scenario (the JSON object in a replays/C06/*.txt file or a corpus line)
         txt = open(chk.replay).read()
         j = json.loads(txt[txt.index("{"):])
-        scns = [("replay", j.get("scenario", j))]
+        if "thread_scenario" in j:
+            replay_thr = j["thread_scenario"]
+            scns = [("replay", {"cause": "stop", "sup": False, "kids": 1, "park": False, "ops": [["x"]]})]
+        else:
+            scns = [("replay", j.get("scenario", j))]
     cdir = os.path.join(ROOT, "corpus", "C06")
     if os.path.isdir(cdir) and not scns:
         for f in sorted(os.listdir(cdir)):
             if f.endswith(".json"):
                 for l in open(os.path.join(cdir, f)):
                     if l.strip() and not l.startswith("#"):
-                        scns.append(("corpus:" + f, json.loads(l)))
+                        j = json.loads(l)
+                        if "thread_scenario" in j:
+                            corpus_thr.append(j["thread_scenario"])
+                        else:
+                            scns.append(("corpus:" + f, j))
     n_corpus = len(scns)
     ex = [] if scns and scns[0][0] == "replay" else exhaustive_small()
     if quick:
@@ -362,6 +471,42 @@ def run(chk):
                           f"correspondence E1:eng_wait view differs ({what}); the oracle accepts the implementation's run\n" + desc))
         if len(chk.coverage["samples"]) < 3 and src == "random" and n_before >= 3:
             chk.coverage["samples"].append(json.loads(desc))
+    # ---- controlled OS threads (hook points wait.after_notified, wait.after_status,
+    # status.after_publish, notify.between)
+    if replay_thr is not None or not (scns and scns[0][0] == "replay"):
+        tscn = [replay_thr] if replay_thr is not None else (
+            corpus_thr + exhaustive_thr() + [gen_thr(chk.rng) for _ in range((250 if quick else 3000) * factor)])
+        ttr = [thr_translate(x) for x in tscn]
+        timpl = [parse_term(x) for x in run_harness(build, "eng_wait", [t["line"] for t in ttr], shards=8, timeout=600)]
+        texprs = []
+        for t, it in zip(ttr, timpl):
+            sup = "true" if t["sup"] else "false"
+            fin = f"(run {t['labels']} {t['init']})"
+            texprs.append(f"(observe {t['labels']} {t['init']}, cleanups (gh {fin}), "
+                          f"check_C06 true {sup} (threads_done {fin} && stat_eqb (status {fin}) Stopped) {show_term(it[1])} "
+                          f"&& check_cleanup {it[3]}%N (status {fin}))")
+        tmodel = [parse_term(x) for x in coq_eval("C06t", IMPORTS, texprs, scope=None)]
+        for scn, t, it, mt in zip(tscn, ttr, timpl, tmodel):
+            chk.coverage["evaluations"] += 1
+            chk.count("thr.exit=" + scn["exit"])
+            for o in scn["ops"]:
+                chk.count("thr.op." + o[0] + ("." + o[2] if o[0] == "ws" else ""))
+            distinct.add("thr" + json.dumps(scn, sort_keys=True))
+            m_obs, m_leaves, oracle = mt[1], mt[2], mt[3]
+            desc = json.dumps({"thread_scenario": scn, "harness_line": t["line"], "model_labels": t["labels"],
+                               "impl": show_term(it), "model_obs": show_term(m_obs)}, indent=1)
+            if oracle != "true":
+                found.append((len(scn["ops"]), True,
+                              "controlled threads: a wait returned early or a waiter was never woken",
+                              "C06 oracle check_C06 rejects the implementation's observations under a controlled thread "
+                              "schedule (hook points)\n" + desc))
+            elif obs_view(it[1]) != obs_view(m_obs) or it[3] != m_leaves or it[4] != 0:
+                chk.coverage["disagreements_checked"] += 1
+                what = ("a planned hook point was never reached (step structure changed)" if it[4] != 0
+                        else "waiter outcomes/snapshots or cleanup count under a controlled thread schedule")
+                found.append((len(scn["ops"]), False, "model/implementation disagree: " + what,
+                              f"correspondence E2:eng_wait thr differs ({what}); the oracle accepts\n" + desc))
+        chk.coverage["thread_schedules"] = len(tscn)
     found.sort(key=lambda x: x[0])
     for _, fi, what, payload in found[:40]:
         chk.violation(what, payload, failing_input=fi)
@@ -387,6 +532,8 @@ TRUSTED = [
     "atomic operations taken as sequentially consistent; each mutex-protected section of Notify is one atomic step",
     "hand-written model coq/WaitNotify/Model.v tied to ractor/src/actor{.rs,/actor_cell.rs,/actor_properties.rs} by "
     "deterministic E1 runs (this check); fair scheduling by the runtime for the progress theorem",
+    "hook points ractor/src/actor/verif.rs (cfg slawlor_ractor_verif): wait.after_notified, wait.after_status, "
+    "status.after_publish, notify.between — used by the controlled-thread engine",
     "Rust harness eng_wait (gates, snapshots, supervisor markers), lib/c06.py scenario translation "
     "(incl. the rule for when the send part of a *_and_wait call fails), lib/common.py term parser",
 ]
